@@ -251,6 +251,30 @@ pub fn execute(case: &Value, _scratch: &str) -> Outcome {
         Ok(Err(e)) => out.violate(Verdict::new("C06", "C06:reload-fails", &[], format!("reload failed: {}", e))),
         Err(p) => out.violate(Verdict::new("C06", "C06:reload-fails", &[], format!("reload panicked: {}", p.chars().take(200).collect::<String>()))),
     }
+    // second generation through a lazily opened workbook in which exactly one sheet is materialised:
+    // the annotations of the touched sheet and of the sheets copied raw must all still be the model's
+    if let Some(k) = case["lazy_touch"].as_u64() {
+        out.step("lazy_resaves", 1);
+        let r = guarded(|| -> Result<Value, String> {
+            let mut lb = world::load_mem(&bytes, false)?;
+            let n = lb.get_sheet_count();
+            if n > 0 {
+                let _ = lb.get_sheet_mut(&((k as usize) % n));
+            }
+            let b2 = world::save_mem(&lb, light)?;
+            let e = world::load_mem(&b2, true)?;
+            Ok(project(&e))
+        });
+        match r {
+            Ok(Ok(p2)) => {
+                if let Some((kind, detail)) = first_diff(&p0, &p2) {
+                    out.violate(Verdict::new("C06", "C06:annotation-differs", &[("kind", &kind), ("via", "lazy-resave")], format!("after save, lazy open touching sheet {}, save and reload {} differs: {}", k, kind, detail)));
+                }
+            }
+            Ok(Err(e)) => out.violate(Verdict::new("C06", "C06:reload-fails", &[("via", "lazy-resave")], format!("lazy re-save failed: {}", e))),
+            Err(p) => out.violate(Verdict::new("C06", "C06:reload-fails", &[("via", "lazy-resave")], format!("lazy re-save panicked: {}", p.chars().take(200).collect::<String>()))),
+        }
+    }
     // through the independent decoder: hyperlinks joined with .rels, merges, defined names, sheet list
     match decode::decode(&bytes) {
         Err(e) => out.violate(Verdict::new("C06", "C06:invalid-package", &[], e)),
@@ -366,6 +390,7 @@ pub fn execute(case: &Value, _scratch: &str) -> Outcome {
 
 pub fn gen_steps(sw: &mut Rng, wl: &mut Rng, sheets: usize, n: usize) -> Vec<Step> {
     let alpha = sw.usize(5);
+    let mut local_shared: std::collections::BTreeSet<usize> = std::collections::BTreeSet::new();
     // swarm: which annotation kinds are on
     let mut aw = [0u32; 11];
     for w in aw.iter_mut() {
@@ -375,7 +400,7 @@ pub fn gen_steps(sw: &mut Rng, wl: &mut Rng, sheets: usize, n: usize) -> Vec<Ste
         aw[0] = 1;
     }
     // cell-level: text, rich, num, bool, formula, remove, style, hyperlink, comment, merge, defined name, table
-    let cw: [u32; 13] = [2, 0, 1, 0, 0, 0, 1, 2 + sw.below(8) as u32, sw.below(6) as u32, sw.below(4) as u32, sw.below(4) as u32, sw.below(2) as u32, sw.below(2) as u32];
+    let cw: [u32; 13] = [2, sw.below(2) as u32, 1, sw.below(2) as u32, sw.below(3) as u32, sw.below(2) as u32, 1, 2 + sw.below(8) as u32, sw.below(6) as u32, sw.below(4) as u32, sw.below(4) as u32, sw.below(2) as u32, sw.below(2) as u32];
     let cfg = world::GenCfg { sheets, ncells: 21, alpha, w: cw };
     let mut steps = Vec::new();
     for i in 0..n {
@@ -401,7 +426,11 @@ pub fn gen_steps(sw: &mut Rng, wl: &mut Rng, sheets: usize, n: usize) -> Vec<Ste
             // ST_Xstring escaping is defined; attribute-valued texts and sheet names never carry them
             6..=9 => steps.push(Step::A(annot::gen_aop(wl, sheets, alpha % 4, &tag, &aw))),
             10 if wl.chance(1, 3) => {
-                steps.push(Step::O(Op::LocalName { sheet: wl.usize(sheets), name: format!("ln_{}", i), address: format!("$C${}", 1 + wl.below(9)) }));
+                // a sheet-scoped name may designate cells of another sheet, and the same name may exist once per scope
+                let sheet = wl.usize(sheets);
+                let name = if wl.chance(1, 3) && local_shared.insert(sheet) { "Rate".to_string() } else { format!("ln_{}", i) };
+                let address = if wl.chance(1, 2) { format!("@{}!$C${}", wl.usize(sheets), 1 + wl.below(9)) } else { format!("$C${}", 1 + wl.below(9)) };
+                steps.push(Step::O(Op::LocalName { sheet, name, address }));
             }
             10 => {
                 let s = match wl.usize(4) {
@@ -450,10 +479,13 @@ pub fn cases(run_seed: u64, tier: &str, _scratch: &str) -> Vec<Value> {
     c["extra_hash_seeds"] = json!((0..nseeds).map(|_| hex64(hs.next_u64())).collect::<Vec<_>>());
     out.push(c.clone());
     // the same workload under further primary hash seeds (each compared before/after on its own)
-    for _ in 0..nseeds {
+    for i in 0..nseeds {
         let mut c2 = c.clone();
         c2["hash_seed"] = hex64(hs.next_u64());
         c2["extra_hash_seeds"] = json!([]);
+        if i == 0 {
+            c2["lazy_touch"] = json!(sw.usize(sheets + 1));
+        }
         out.push(c2);
     }
     out
